@@ -289,7 +289,9 @@ func (ps *peerScore) score(p peer.ID) float64 {
 		var topicScore float64
 
 		// P1: time in Mesh
-		if tstats.inMesh {
+		// (with non-atomic validation the whole P1 group may be left at zero,
+		// including the quantum; there is nothing to score in that case)
+		if tstats.inMesh && topicParams.TimeInMeshQuantum != 0 {
 			p1 := float64(tstats.meshTime / topicParams.TimeInMeshQuantum)
 			if p1 > topicParams.TimeInMeshCap {
 				p1 = topicParams.TimeInMeshCap
